@@ -66,6 +66,10 @@ type hgen struct {
 	nname   int
 	side    int // 0 request, 1 response
 	annPct  int
+	// spellings strconv.Unquote does not understand (\/ and surrogate-pair escapes). The portable converter unquotes with
+	// strconv.Unquote (rejects \/, turns a surrogate pair into two U+FFFD: reported as an observation, C18's subject), so
+	// requests generated with this flag are run through the native converter only.
+	goUnsafeEsc bool
 }
 
 var hScalars = []thrift.Type{thrift.BOOL, thrift.I08, thrift.I16, thrift.I32, thrift.I64, thrift.DOUBLE, thrift.STRING, thrift.STRING}
@@ -313,7 +317,8 @@ func (g *hgen) keyUniverse() []string {
 
 // ---- value texts -----------------------------------------------------------------------------------
 
-var hStrs = []string{"a", "b", "hello", "x y", "é", "0", "12", "true", "a,b", "q\"uote", "back\\slash", "[1]", "{}", "tab\there", "Z"}
+var hStrs = []string{"a", "b", "hello", "x y", "é", "0", "12", "true", "a,b", "q\"uote", "back\\slash", "[1]", "{}", "tab\there", "Z",
+	"line\nbreak", "sl/ash", "\\n", "smile\U0001F600", "é\"\\/\t", "\\u0041", "a\\\"b"}
 
 func (g *hgen) intText(k thrift.Type) string {
 	r := g.r
@@ -378,6 +383,43 @@ func (g *hgen) scalarText(t *hTy, valid bool) string {
 	return ""
 }
 
+// JSON string literal with randomly chosen (all legal) escape spellings: \/ for '/', \uXXXX for non-ASCII (surrogate pairs
+// above U+FFFF), \u00XX for some ASCII letters; quote, backslash and control characters are always escaped
+func (g *hgen) quote(s string) string {
+	r := g.r
+	var b strings.Builder
+	b.WriteByte('"')
+	for _, c := range s {
+		switch {
+		case c == '"':
+			b.WriteString("\\\"")
+		case c == '\\':
+			b.WriteString("\\\\")
+		case c == '\n':
+			b.WriteString([]string{"\\n", "\\u000a", "\\u000A"}[r.intn(3)])
+		case c == '\t':
+			b.WriteString([]string{"\\t", "\\u0009"}[r.intn(2)])
+		case c < 0x20:
+			b.WriteString(fmt.Sprintf("\\u%04x", c))
+		case c == '/' && g.goUnsafeEsc && r.chance(60):
+			b.WriteString("\\/")
+		case c == 0xFFFD:
+			b.WriteRune(c)
+		case c > 0xFFFF && g.goUnsafeEsc && r.chance(60):
+			v := c - 0x10000
+			b.WriteString(fmt.Sprintf("\\u%04x\\u%04X", 0xD800+(v>>10), 0xDC00+(v&0x3ff)))
+		case c >= 0x80 && c <= 0xFFFF && r.chance(50):
+			b.WriteString(fmt.Sprintf("\\u%04x", c))
+		case c >= 'a' && c <= 'z' && r.chance(8):
+			b.WriteString(fmt.Sprintf("\\u%04X", c))
+		default:
+			b.WriteRune(c)
+		}
+	}
+	b.WriteByte('"')
+	return b.String()
+}
+
 func jsonQuote(s string) string {
 	var b strings.Builder
 	b.WriteByte('"')
@@ -434,7 +476,7 @@ func (g *hgen) jsonText(t *hTy, depth int) string {
 		if t.Binary {
 			return jsonQuote(base64.StdEncoding.EncodeToString(r.bytes(r.intn(7))))
 		}
-		return jsonQuote(hStrs[r.intn(len(hStrs))])
+		return g.quote(hStrs[r.intn(len(hStrs))])
 	case thrift.LIST, thrift.SET:
 		n := r.intn(4)
 		var parts []string
@@ -449,7 +491,7 @@ func (g *hgen) jsonText(t *hTy, depth int) string {
 		for i := 0; i < n; i++ {
 			var k string
 			if t.Key.K == thrift.STRING {
-				k = []string{"a", "b", "key", "k 1", "z"}[r.intn(5)]
+				k = []string{"a", "b", "key", "k 1", "z", "s/l", "é"}[r.intn(7)]
 			} else {
 				k = strconv.Itoa(r.intn(50) - 10)
 			}
@@ -457,7 +499,7 @@ func (g *hgen) jsonText(t *hTy, depth int) string {
 				continue
 			}
 			seen[k] = true
-			parts = append(parts, jsonQuote(k)+":"+g.jsonText(t.Elem, depth+1))
+			parts = append(parts, g.quote(k)+":"+g.jsonText(t.Elem, depth+1))
 		}
 		return "{" + strings.Join(parts, ",") + "}"
 	case thrift.STRUCT:
@@ -469,7 +511,7 @@ func (g *hgen) jsonText(t *hTy, depth int) string {
 			if r.chance(35) && !(f.Req == 1 && strings.HasPrefix(t.Name, "U")) {
 				continue
 			}
-			parts = append(parts, jsonQuote(f.Name)+":"+g.jsonText(f.T, depth+1))
+			parts = append(parts, g.quote(f.Name)+":"+g.jsonText(f.T, depth+1))
 		}
 		if r.chance(6) {
 			parts = append(parts, `"unknown_member":[1,{"x":null}]`)
